@@ -195,7 +195,11 @@ def param_shape_case(ctx: Ctx, stream: str, i: int) -> None:
             ('ij,j->i', (2, 1), (3,)), ('ij...,j...->i...', (2, 3, 5), (3,)), ('ij...,j...->i...', (2, 3, 5), (3, 1)),
             ('ij...,j...->i...', (2, 1), (3, 2)), ('ij...,j...->i...', (2, 3, 1), (3, 4)), ('ij...,j...->i...', (2, 3), (3, 4)),
             ('kij,kj->ki', (1, 2, 3), (4, 3)), ('ij...,j...->i...', (2, 3, 4), (3, 4)), ('ij,j->i', (2, 3), (3,)),
-            ('ikj,kj->ki', (2, 1, 3), (4, 3))])
+            ('ikj,kj->ki', (2, 1, 3), (4, 3)),
+            # two broadcasts that cancel in the element COUNT: a contracted axis of size one against n, and a batch axis of
+            # size n that the input lacks (or has at size one)
+            ('ij...,j...->i...', (2, 1, 3), (3,)), ('...ij,...j->...i', (4, 2, 1), (1, 4)), ('ij...,j...->i...', (2, 1, 2), (2,)),
+            ('ij...,j...->i...', (3, 1, 4), (4, 1))])
         blocks = jnp.asarray(np.arange(1, int(np.prod(bshape)) + 1, dtype=np.float64).reshape(bshape), dtype=dt)
         mk = lambda: DenseBlockDiagonalOperator(blocks, jax.ShapeDtypeStruct(xshape, dt), subs)             # noqa: E731
         cfg = {'which': which, 'subscripts': subs, 'blocks_shape': bshape, 'leaf_shape': xshape}
